@@ -13,6 +13,7 @@ ap.add_argument("which")
 ap.add_argument("--status", default=None)
 ap.add_argument("--note", default="")
 ap.add_argument("--src", default="/tmp/seed")
+ap.add_argument("--name", default=None, help="directory name under seeded/ (default <Cnn>-<which>)")
 a = ap.parse_args()
 src = os.path.join(a.src, "out", a.prop)
 res = json.load(open(os.path.join(a.src, "results", f"{a.prop}_{a.which}.json")))
@@ -21,7 +22,7 @@ try:
     notes = json.load(open(os.path.join(src, "notes.json"))).get(a.which, {})
 except Exception:
     pass
-dst = os.path.join(os.path.dirname(os.path.dirname(os.path.abspath(__file__))), "seeded", f"{a.prop}-{a.which}")
+dst = os.path.join(os.path.dirname(os.path.dirname(os.path.abspath(__file__))), "seeded", a.name or f"{a.prop}-{a.which}")
 os.makedirs(dst, exist_ok=True)
 shutil.copy(os.path.join(src, f"{a.which}.diff"), os.path.join(dst, "patch.diff"))
 shutil.copy(os.path.join(src, f"demo_{a.which}.py"), os.path.join(dst, "demo.py"))
